@@ -43,7 +43,8 @@ def run(ck, w):
     g = w.graph
 
     # ---- 1. value nondeterminism -> written bytes -------------------------------------------------------
-    T = taint.Taint(w, set(), decoded_enums=set(), source_calls=VALUE_SOURCES, bounded_sanitize=False)
+    T = taint.Taint(w, set(), decoded_enums=set(), source_calls=VALUE_SOURCES, bounded_sanitize=False,
+                    no_prop=re.compile(r"^tracing|monitor::Monitor::(count|error|start_task)|Task::(set_name|increment|set_total)$"))
     iters = T.solve()
     ck.stats["nondet_taint"] = {"iterations": iters, "heap_fields_tainted": sorted("%s.%s" % x for x in T.heap)}
     o = ck.ob("C17.1a", "no path or content given to Transport::write / create_dir depends on the clock, randomness or the environment, "
